@@ -58,7 +58,12 @@ TEMPLATES += [
     # a resource taken out of scope by `with`: a name that merely STARTS like the resource stays in scope
     'def f1(a2: Int) => print("value {a2}")\ndef v3 := 10\ndef v4 := 32\nwith v3 as w5: Int do\n    f1(w5)\n    f1(v4)\ndef f6(a7: Int, a8: Int) =>\n    with a7 as w9: Int do\n        f1(w9)\n        f1(a8)\nf6(1, 2)\n',
 ]
-ALL_DERIVED = {len(TEMPLATES) - 1}      # templates for which more derived renamings are tried in the quick tier
+TEMPLATES += [
+    # calls of user definitions INSIDE interpolations (the text between the braces is handled by its own code path)
+    'class K1(def c2: Int)\n    def m3(self) -> Str => "[{self.c2}]"\ndef f4(a5: Int) -> Str => "<{a5}>"\ndef v6: Int := 5\ndef o7 := K1(7)\nprint("plain {f4(v6)}, boxed {K1(v6).m3()}, kept {o7.m3()}")\n',
+]
+INTERP_TEMPLATE = len(TEMPLATES) - 1
+ALL_DERIVED = {len(TEMPLATES) - 2}      # templates for which more derived renamings are tried in the quick tier
 
 NAME_RE = re.compile(r"\b(?:Err\d+|msgErr\d+|[KT]\d+|[vwmtohfacgpi]\d+)\b")
 
@@ -227,6 +232,21 @@ def run(chk):
         if kinds[i]:
             for rho in order_rhos(rng, kinds[i]):
                 cases.append((i, rho, "order"))
+    # names that merely END (or start) like a spelling the name tables know, on the template with calls inside interpolations
+    affixed = []
+    for k in sorted(known_spellings):
+        for v in ("to" + k.capitalize(), "My" + k.capitalize(), "as" + k.capitalize(), k.capitalize() + "Of", "to_" + k.lower(), k.lower() + "ify"):
+            if v not in not_fresh and v not in known_spellings:
+                affixed.append(v)
+    for n, k in kinds[INTERP_TEMPLATE].items():
+        if k not in ("function", "class", "method"):
+            continue
+        for target in (affixed if thorough else rng.sample(affixed, min(len(affixed), 40))):
+            rho = random_rho(rng, {m: kk for m, kk in kinds[INTERP_TEMPLATE].items() if m != n}, 0.0)
+            if target in rho.values():
+                continue
+            rho[n] = target
+            cases.append((INTERP_TEMPLATE, rho, "%s->%s" % (k, target)))
     n_derived = 0
     for i in range(len(TEMPLATES)):
         ds = derived_rhos(rng, kinds[i])
